@@ -347,8 +347,10 @@ type vestOp struct {
 	restart    bool
 	coins      sdk.Coins
 	newTime    time.Time
-	start, end int64 // create_va: the given schedule
-	denoms     []int // move_denoms: the selected denominations (as listed in the message)
+	start, end int64         // create_va: the given schedule
+	denoms     []int         // move_denoms: the selected denominations (as listed in the message)
+	dur        time.Duration // create_pool: the lock duration of the message
+	vtName     string        // create_pool: the vesting type named by the message
 }
 
 func runVestCase(ta *TestApp, seed uint64, idx int, rep *Report, profile string) string {
@@ -751,7 +753,7 @@ func runVestCase(ta *TestApp, seed uint64, idx int, rep *Report, profile string)
 				nextPool++
 			}
 			ownerStr := e.addrSpelled(owner)
-			op = vestOp{kind: "create_pool", owner: owner, name: name, amount: amt,
+			op = vestOp{kind: "create_pool", owner: owner, name: name, amount: amt, dur: dur, vtName: e.vtName(vt),
 				term: fmt.Sprintf("OCreatePool %s %d %s %s %d", zI(int64(owner)), name, zB(amt), zI(int64(dur)), vt),
 				run: func(c sdk.Context) (*big.Int, error) {
 					_, err := e.ms.CreateVestingPool(sdk.WrapSDKContext(c), &vesttypes.MsgCreateVestingPool{Owner: ownerStr,
@@ -1444,6 +1446,7 @@ func (e *vestEnv) predicates(ctx sdk.Context, op *vestOp, pre *vestSnap, res opR
 	if !res.ok {
 		return
 	}
+	e.checkMessageEvents(ctx, op, pre, res)
 	switch op.kind {
 	case "withdraw":
 		// C06: query == paid == balance delta; pools before lock end untouched; matured pools emptied
@@ -1651,6 +1654,81 @@ func (e *vestEnv) checkWithdrawEvents(op *vestOp, pre, post *vestSnap, res opRes
 	}
 	e.rep.Eval("C18.withdraw_events_per_pool", ok, e.cid, e.step, fmt.Sprintf("%s want %v got %v", op.term, want, res.events))
 	e.rep.Eval("C18.withdraw_events_sum", evTot.Cmp(tot) == 0, e.cid, e.step, fmt.Sprintf("%s events sum %v withdrawn %v", op.term, evTot, tot))
+}
+
+// C18: the typed events of a successful vesting message describe what the message did — which events, how many of each, and every
+// attribute: the addresses (compared as addresses, whatever their spelling), the pool, the amount the message moved (not a
+// counter of the pool), the flags.
+func (e *vestEnv) checkMessageEvents(ctx sdk.Context, op *vestOp, pre *vestSnap, res opResult) {
+	const pfx = "chain4energy.c4echain.cfevesting."
+	byType := map[string][]map[string]string{}
+	for _, ev := range res.allEv {
+		if !strings.HasPrefix(ev.Type, pfx) {
+			continue
+		}
+		m := map[string]string{}
+		for _, at := range ev.Attributes {
+			m[string(at.Key)] = strings.Trim(string(at.Value), "\"")
+		}
+		byType[strings.TrimPrefix(ev.Type, pfx)] = append(byType[strings.TrimPrefix(ev.Type, pfx)], m)
+	}
+	sameAddr := func(s string, id int) bool {
+		a, err := sdk.AccAddressFromBech32(strings.ToLower(s))
+		return err == nil && id >= 0 && id < len(e.addrs) && a.Equals(e.addrs[id])
+	}
+	denom := e.ta.App.CfevestingKeeper.Denom(ctx)
+	want := map[string]int{}
+	ok, detail := true, ""
+	fail := func(f string, a ...interface{}) {
+		if ok {
+			ok, detail = false, fmt.Sprintf(f, a...)
+		}
+	}
+	_, existed := pre.accBytes[op.to]
+	switch op.kind {
+	case "create_pool":
+		want["NewVestingPool"] = 1
+		for _, m := range byType["NewVestingPool"] {
+			if !sameAddr(m["owner"], op.owner) || m["name"] != e.poolName(op.name) || m["amount"] != op.amount.String()+denom ||
+				m["duration"] != op.dur.String() || m["vestingType"] != op.vtName {
+				fail("NewVestingPool %v does not describe the message (owner %d, pool %s, amount %v%s, duration %v, type %s)", m, op.owner, e.poolName(op.name), op.amount, denom, op.dur, op.vtName)
+			}
+		}
+	case "send":
+		want["NewVestingAccountFromVestingPool"], want["NewVestingAccount"] = 1, 1
+		for _, m := range byType["NewVestingAccountFromVestingPool"] {
+			if !sameAddr(m["owner"], op.owner) || !sameAddr(m["address"], op.to) || m["vesting_pool_name"] != e.poolName(op.name) ||
+				m["amount"] != op.amount.String()+denom || m["restart_vesting"] != fmt.Sprint(op.restart) {
+				fail("NewVestingAccountFromVestingPool %v does not describe the message (owner %d, to %d, pool %s, amount %v%s moved, restart %v)", m, op.owner, op.to, e.poolName(op.name), op.amount, denom, op.restart)
+			}
+		}
+	case "create_va":
+		want["NewVestingAccount"] = 1
+	case "split", "move", "move_denoms":
+		want["VestingSplit"] = 1
+		if !existed {
+			want["NewVestingAccount"] = 1
+		}
+		for _, m := range byType["VestingSplit"] {
+			if !sameAddr(m["source"], op.owner) || !sameAddr(m["destination"], op.to) {
+				fail("VestingSplit %v does not name the accounts of the message (%d -> %d)", m, op.owner, op.to)
+			}
+		}
+	case "withdraw":
+	default:
+		return
+	}
+	for _, m := range byType["NewVestingAccount"] {
+		if !sameAddr(m["address"], op.to) {
+			fail("NewVestingAccount %v does not name the account the message created (%d)", m, op.to)
+		}
+	}
+	for _, t := range []string{"NewVestingPool", "NewVestingAccountFromVestingPool", "NewVestingAccount", "VestingSplit"} {
+		if len(byType[t]) != want[t] {
+			fail("%d %s events, the message calls for %d", len(byType[t]), t, want[t])
+		}
+	}
+	e.rep.Eval("C18.vesting_message_events_describe_the_message", ok, e.cid, e.step, op.term+": "+detail)
 }
 
 func (e *vestEnv) checkSummary(ctx sdk.Context) {
